@@ -274,11 +274,11 @@ theorem tie_lockedDo_retry (s : LC.St) (t : Tid) (x : Nat) (h : s.pc t = .b3) (h
 
 /-- the closure of `GetResource` / `Cache.Take`: found → exit 0 (the stored instance, no load); load failed → exit 1
 (the error, nothing stored); else exit 2 (store, return the new instance) — rows g3 and g5 branch the same way. -/
-theorem tie_closure_branch_g3 (s : RM.St) (t : Tid) (x : Nat) (h : s.pc t = .g3) :
+theorem tie_closure_branch_g3 (s : RM.St) (t : Tid) (x : Nat) (h : s.pc t = .g3) (hx : x = 0 ∨ s.cfg.lerr = false) :
     (RM.step s t x).map (fun s' => s'.pc t) =
       some (if getResourceClosureBranch (s.found t) false = 0 then .m2 else .g4) := by
   unfold RM.step; rw [h]
-  cases hf : s.found t <;> simp [getResourceClosureBranch, upd]
+  cases hf : s.found t <;> rcases hx with hx | hx <;> simp [getResourceClosureBranch, upd, hx]
 theorem tie_closure_branch_g5 (s : RM.St) (t : Tid) (x : Nat) (h : s.pc t = .g5) :
     (RM.step s t x).map (fun s' => s'.pc t) =
       some (if getResourceClosureBranch false (x == 0) = 1 then .m2 else .g6) := by
@@ -301,7 +301,7 @@ theorem tie_cfg_users :
     Cfg.getResource = { pre := false, asrt := true } ∧
     cacheNodeDoTakeShape.head? = some "func{" ∧ cacheNodeDoTakeShape.getLast? = some "return <call>" ∧
     cacheNodeDoTakeShape.contains "call jsonx.Unmarshal(val.([]byte), v)" = true ∧
-    Cfg.doTake = { pre := false, asrt := true } := by decide
+    Cfg.doTake = { pre := false, asrt := true, lerr := true } ∧ Cfg.getResource.lerr = false ∧ Cfg.cacheTake.lerr = false := by decide
 theorem tie_front_lookup_p3 (s : RM.St) (t : Tid) (x : Nat) (h : s.pc t = .p3) :
     (RM.step s t x).map (fun s' => s'.pc t) =
       some (if collectionTakeBranch (s.found t) false false = 0 then .idle else .l0) := by
@@ -474,5 +474,50 @@ not-found execution "created", stored by rows g6…g8; `rm_not_found_consistent`
 theorem tie_setCacheWithNotFound : cacheNodeSetCacheWithNotFoundShape =
     ["call c.aroundDuration(c.notFoundExpiry)", "call ttlSeconds(c.aroundDuration(c.notFoundExpiry))",
      "call c.rds.SetnxExCtx(ctx, key, notFoundPlaceholder, seconds)", "return err"] := by decide
+
+/-! ### Round 5: whole decision trees (extract/c07.go `c07DecisionTree`: nested if / else-if, re-assigned variables as
+separate atoms) compared with the model's decision function `RM.doTakeClosure` for ALL outcomes of the cache read and
+of the query. -/
+
+theorem tie_decision_atoms :
+    doTakeClosureExitAtoms = ["err != nil", "errors.Is(err, errPlaceholder)", "errors.Is(err, c.errNotFound)",
+      "errors.Is(err, c.errNotFound)", "err != nil", "err != nil", "err != nil"] ∧
+    doTakeClosureExitExits = ["return nil, c.errNotFound", "return nil, err", "return nil, c.errNotFound", "return nil, err",
+      "return jsonx.Marshal(v)"] ∧
+    doGetCacheExitAtoms = ["err != nil", "len(data) == 0", "data == notFoundPlaceholder"] ∧
+    doGetCacheExitExits = ["return err", "return c.errNotFound", "return errPlaceholder", "return c.processCache(ctx, key, data, v)"] ∧
+    processCacheExitAtoms = ["err == nil", "e != nil"] ∧ processCacheExitExits = ["return nil", "return c.errNotFound"] ∧
+    doTakeExitAtoms = ["err != nil", "fresh"] ∧
+    doTakeExitExits = ["return err", "return nil", "return jsonx.Unmarshal(val.([]byte), v)"] := by decide
+
+open RM in
+/-- what the closure's three conditions on the cache-read error see, computed THROUGH the translated `doGetCache` and
+`processCache`: (err != nil, errors.Is(err, errPlaceholder), errors.Is(err, c.errNotFound)). -/
+def cacheErrAtoms (c : CacheRead) : Bool × Bool × Bool :=
+  let ex := doGetCacheExit (c == .error) (c == .empty) (c == .placeholder)
+  if ex = 0 then (true, false, false)                                          -- return err
+  else if ex = 1 then (true, false, true)                                      -- return c.errNotFound
+  else if ex = 2 then (true, true, false)                                      -- return errPlaceholder
+  else if processCacheExit (c == .row) false = 0 then (false, false, false)    -- processCache: return nil
+  else (true, false, true)                                                     -- processCache: return c.errNotFound
+
+open RM in
+/-- the return statement the model's decision function stands for. -/
+def closureExitOf (r : Closure) : Nat :=
+  match r.out, r.queried with
+  | .value, _ => 4 | .notFound, false => 0 | .error, false => 1 | .notFound, true => 2 | .error, true => 3
+
+open RM in
+/-- **the whole closure of `doTake`, semantically**: for every outcome of the cache read (redis / context error, no
+entry, placeholder, row, corrupt row) and of the query (row, not found, error), and whatever the two logging-only
+conditions are, the translated code reaches exactly the return statement `RM.doTakeClosure` says. -/
+theorem tie_doTake_decisions (c : CacheRead) (q : QueryRes) (setNfErr cacheValErr : Bool) :
+    doTakeClosureExit (cacheErrAtoms c).1 (cacheErrAtoms c).2.1 (cacheErrAtoms c).2.2 (q == .notFound) setNfErr (q != .row) cacheValErr
+      = closureExitOf (doTakeClosure c q) := by
+  cases c <;> cases q <;> cases setNfErr <;> cases cacheValErr <;> decide
+
+/-- after the flight: an error goes to every caller of the flight, the fresh caller keeps its own `v`, a joiner
+unmarshals the flight's bytes (rows r0 / w2 of `RM`: both return `cval` of the flight). -/
+theorem tie_doTake_after_flight_decisions : ∀ e f, doTakeExit e f = if e then 0 else if f then 1 else 2 := by decide
 
 end GoZero.C07.Tie
